@@ -38,11 +38,14 @@ theorem facts_split_key : Gen.invocationSplitKey = splitKey := by decide
 theorem facts_float_format : Gen.floatExpFormat = [(0x67, -1, 64), (0x67, -1, 64)] := by decide
 
 /-- Regenerated obligation: the shape of `FloatExp.appendJSON` that
-`Flt.jsonAsInt` models — guard `i := int64(e.Value); float64(i) == e.Value`,
+`Flt.jsonAsInt` models — range check `-2^63 ≤ v < 2^63` (8cf2e68: the conversion
+of an out-of-range float is implementation-defined, so it is never performed),
+guard `i := int64(e.Value); float64(i) == e.Value`,
 then `strconv.AppendInt(buf, i, 10)` — and both `MarshalJSON` and `EncodeJSON`
 of `FloatExp` go through it. -/
 theorem facts_float_json_shape : Gen.floatJsonShape =
-    ["init i := int64(e.Value)", "cond float64(i) == e.Value", "then strconv.AppendInt(buf, i, 10)",
+    ["range e.Value >= -9223372036854775808.0 && e.Value < 9223372036854775808.0",
+     "init i := int64(e.Value)", "cond float64(i) == e.Value", "then strconv.AppendInt(buf, i, 10)",
      "caller EncodeJSON", "caller MarshalJSON"] := by decide
 
 /-- The numeric value of a scalar survives the JSON printer exactly: the only
